@@ -73,6 +73,9 @@ import ast  # noqa: E402
 LOST = ("@after", "@loop", "@maybe", "@it", "@cur")
 
 
+IGNORE: list = []  # call-text prefixes left out of the comparison by the current agree() call (bookkeeping such as source locations)
+
+
 def _relevant(effects):
     """Effects that are part of the codec's contract: stores into the object, mutator calls on it, raises, deletes."""
     out = []
@@ -87,7 +90,7 @@ def _relevant(effects):
                 out.append(("if", e[1], tuple(a), tuple(b)))
         elif e[0] in ("store", "raise", "del", "return"):
             out.append(e)
-        elif e[0] == "call" and not e[1].startswith(("self.logger.", "self._logger.", "logging.", "logger.", "print(", "warnings.")):
+        elif e[0] == "call" and not e[1].startswith(("self.logger.", "self._logger.", "logging.", "logger.", "print(", "warnings.")) and not e[1].startswith(tuple(IGNORE)):
             out.append(e)
     return out
 
@@ -202,15 +205,19 @@ def reference_paths(source: str, params=None):
     return summary.summarise(fn, params)
 
 
-def agree(ctx, rule, finfo, reference: str, what: dict, params=None, keep=(), key_prefix="", only_cases=None):
+def agree(ctx, rule, finfo, reference: str, what: dict, params=None, keep=(), key_prefix="", only_cases=None, ignore=()):
     """One obligation per component: the summary of the implementation equals the summary of the reference model.
 
     what: {component: sentence}.  A found summary that contains lost-precision markers where the reference has none is an
     unknown idiom (ANALYSIS-ERROR), not a verdict."""
     from ..model import AnalysisError
 
-    found = signature(paths_of(ctx, finfo, params, keep))
-    want = signature(reference_paths(reference, params))
+    IGNORE[:] = list(ignore)
+    try:
+        found = signature(paths_of(ctx, finfo, params, keep))
+        want = signature(reference_paths(reference, params))
+    finally:
+        IGNORE[:] = []
     ctx.touch(finfo)
     if only_cases is not None:  # compare only the cases (rows of the case table) the property speaks about
         found = {k: [r for r in v if only_cases(r)] for k, v in found.items()}
